@@ -94,13 +94,23 @@ def check_type_dispatch(rep, repo):
     if f is None:
         rep.inconclusive('C08.R3', '-', 'Generator.__init__ is the entry point of a run', got='not found')
         return
+    PARSED = S('parsed_args')
+    for T, cls in sorted(WRITER_OF_TYPE.items()):
+        if not _dispatch_for(rep, repo, f, T, cls, PARSED):
+            return
+
+
+def _dispatch_for(rep, repo, f, T, cls, PARSED):
+    """one problem type: __init__ interpreted with parse() handing back an object whose matchingproblem is T"""
     it = Interp(repo)
     it.opaque = lambda g: g.name in ('generate_instances', 'parse')
+    it.opaque_ret = {'parse': PARSED}
+    it.heap[A(PARSED, 'matchingproblem')] = C(T)
     try:
         effs, _ = it.run(f, {p_: S(p_) for p_ in f.params if p_ != 'self'})
     except Unknown as u:
         rep.inconclusive('C08.R3', f.where, 'Generator.__init__ is inside the interpreted fragment', got=str(u))
-        return
+        return False
     parsed = [e for e, _ in iter_effects(effs) if e.kind in ('call', 'callo') and getattr(e.target, 'name', '') == 'parse']
     calls = [(e, ctx) for e, ctx in iter_effects(effs) if e.kind in ('call', 'callo') and getattr(e.target, 'name', '') == 'generate_instances']
     unresolved = []
@@ -111,9 +121,9 @@ def check_type_dispatch(rep, repo):
                 unresolved += [show(t)[:80] for t in walk_unique(v_, seen) if t[0] == 'call' and t[1][0] == 'attr' and t[1][2] == 'generate_instances'
                                and not any(getattr(c_, 'ret', None) == t for c_, _ in calls)]
     if unresolved:
-        rep.inconclusive('C08.R3', f.where, 'the receiver of every generate_instances call is resolved to one writer class', got=unresolved[:2])
-        return
-    for T, cls in sorted(WRITER_OF_TYPE.items()):
+        rep.inconclusive('C08.R3', f.where, 'the receiver of every generate_instances call is resolved to one writer class (type %s)' % T, got=unresolved[:2])
+        return False
+    if True:
         def ev(t):
             if t[0] == 'attr' and t[2] == 'matchingproblem':
                 return C(T)
@@ -135,14 +145,15 @@ def check_type_dispatch(rep, repo):
                 run_.append(e)
         if unknown:
             rep.inconclusive('C08.R3', f.where, 'the dispatch on the problem type is decided by args.matchingproblem alone (type %s)' % T, got=unknown[:2])
-            continue
+            return True
         ok = len(run_) == 1 and getattr(run_[0].target, 'cls', None) == cls
         rep.check(ok, 'C08.R3', f.where, 'problem type %s: the instances are written by %s.generate_instances, called once' % (T, cls),
                   got=[getattr(e.target, 'cls', '?') for e in run_] or 'no writer is called', want=cls, construct='dispatch of problem type %s' % T)
         if ok and parsed:
-            arg_ok = len(run_[0].args) == 1 and (run_[0].args[0] == parsed[0].ret or run_[0].args[0] == A(S('self'), 'args'))
+            arg_ok = len(run_[0].args) == 1 and run_[0].args[0] in (parsed[0].ret, A(S('self'), 'args'), PARSED)
             rep.check(arg_ok, 'C08.R3', f.where, 'problem type %s: the writer receives the parsed arguments' % T, got=[show(a)[:60] for a in run_[0].args], want='the value returned by parse()',
                       construct='writer arguments for %s' % T)
+    return True
 
 
 # ---- R1 -------------------------------------------------------------------------------------------------------
